@@ -89,7 +89,7 @@ structure NameFacts (line name : Text) : Prop where
 
 theorem facts_name (stamp : Text) (hs : stamp.all stampChar = true) (name : Text) (hn : SafeName name) :
     NameFacts (stamp ++ (shellTag ++ nameTail name)) name := by
-  obtain ⟨_, hdata, hstatv, hconn⟩ := hn
+  obtain ⟨_, hstatv, hconn⟩ := hn
   have h2 : searchRe reSnapshotAlt (stamp ++ (shellTag ++ nameTail name)) = some [name] := by
     unfold reSnapshotAlt nameTail
     skipseg; skipseg
@@ -98,9 +98,15 @@ theorem facts_name (stamp : Text) (hs : stamp.all stampChar = true) (name : Text
     unfold reStatv at hstatv ⊢
     skipseg; skipseg
     exact hstatv
-  have hd : dataLine (stamp ++ (shellTag ++ nameTail name)) = dataLine (nameTail name) := by
-    have : reData (stamp ++ (shellTag ++ nameTail name)) = reData (nameTail name) := by
-      skipdata; skipdata
+  have hd : dataLine (stamp ++ (shellTag ++ nameTail name)) = .noMatch := by
+    have e : stamp ++ (shellTag ++ nameTail name) = (stamp ++ (shellTag ++ (t!"Snapshot (" ++ name))) ++ [')', '\n'] := by
+      simp [nameTail]
+    have : reData (stamp ++ (shellTag ++ nameTail name)) = none := by
+      apply reData_none_of_open
+      rw [e, endsClose_append]
+      have h1 : endsClose [')', '\n'] = false := by decide
+      have h2 : [')', '\n'].all isSpace = false := by decide
+      rw [h1, h2]; simp
     unfold dataLine; rw [this]
   have hsnap : searchRe [.lit t!"Snapshot"] (stamp ++ (shellTag ++ nameTail name)) = some [] := by
     skipseg; skipseg
@@ -119,10 +125,7 @@ theorem facts_name (stamp : Text) (hs : stamp.all stampChar = true) (name : Text
   generalize midFires (stamp ++ (shellTag ++ nameTail name)) s1 = s2 at k1 ⊢
   have hdl : ∃ s3, hData (stamp ++ (shellTag ++ nameTail name)) s2 = .ok s3 ∧ s3.name = s2.name ∧ s3.segs = s2.segs := by
     unfold hData; rw [hd]
-    cases hdv : dataLine (nameTail name) with
-    | noMatch => exact ⟨s2, rfl, rfl, rfl⟩
-    | raises => exact absurd hdv hdata
-    | bytes bs => exact ⟨{ s2 with bytes := bs }, rfl, rfl, rfl⟩
+    exact ⟨s2, rfl, rfl, rfl⟩
   obtain ⟨s3, e3, n3, g3⟩ := hdl
   rw [e3]
   have k4 := keeps_post (stamp ++ (shellTag ++ nameTail name)) s3
